@@ -164,7 +164,7 @@ def run(tier: str, seed: int) -> int:
              "and degenerate other sides; maxcor 1..10; ftol = 0, budget 5000 iterations: projected gradient recomputed from the harness's "
              "closures <= max(10 gtol, resolution level); every run replayed through the Lean driver model; plus the COMPLETE model (driver + composed "
              "kernel models + DCSRCH model, no recorded answers) executed natively on the package's benchmark functions with random boxes/starts/maxcor "
-             "against the package: iteration counts and the first 8 iterates (relative 1e-5; finite-difference modes: polynomial benchmarks, first 3 iterates, 1e-4)",
+             "against the package: the first 8 iterates of the common prefix (relative 1e-5; finite-difference modes: polynomial benchmarks, first 3 iterates, 1e-4)",
         assumptions=["resolution level = 10 sqrt(2 L noise) + 100 eps L max(1,|x|), with noise = measured change of the computed objective under 1-ulp "
                      "perturbations of the returned x (>= eps |f|) and L = measured local Lipschitz constant of the gradient"])
 
